@@ -101,6 +101,11 @@ def one(m, all_checks: bool):
                 elif m.get("rule") and m["rule"] not in out:
                     res["status"] = "WRONG-RULE"
                     res["detail"] += f"{pid}: fired but not {m['rule']}: " + "|".join(l.strip() for l in out.splitlines() if "VIOLATED" in l)[:300]
+            elif m["expect"] == "error":
+                # verdict must be withheld (exit 2), or a violation reported; never a silent pass
+                if rc == 0:
+                    res["status"] = "SILENT-PASS"
+                    res["detail"] += f"{pid}: exit 0 on a tree the analyser cannot interpret; "
             else:
                 if rc != 0:
                     res["status"] = "FALSE-ALARM" if rc == 1 else "ERROR"
@@ -114,7 +119,7 @@ def one(m, all_checks: bool):
                 if rc != 0:
                     others[pid] = rc
             res["others_nonzero"] = others
-            if any(v == 2 for v in others.values()):
+            if any(v == 2 for v in others.values()) and m["expect"] != "error":
                 res["status"] = res["status"] if res["status"] != "ok" else "OTHER-ERROR"
         return res
     finally:
